@@ -204,7 +204,7 @@ func orderedMapCopyFresh(c *Ctx, r *Report, rule string) {
 // leaves a map or a clock shared.
 func entryCopyFieldwise(c *Ctx, r *Report, rule string) {
 	p := c.P
-	cp := p.FuncI("entry", "Entry", "Copy")
+	cp := p.Func("entry", "Entry", "Copy") // the declared function: helper functions and methods are followed by name, not spliced in
 	recv := recvObj(p, cp)
 	isRecv := func(id *ast.Ident) bool { return p.ObjOf(cp, id) == recv || p.CanonObj(cp, id) == recv }
 	var lit *ast.CompositeLit
